@@ -34,6 +34,13 @@ func runAggregate(gs []*stack.Goroutine, lvl stack.Similarity, reps int) (res st
 			backref = false
 		}
 	}
+	// aggregating at the other levels in between must not change what this level gives
+	for _, l2 := range levels {
+		snap.Aggregate(l2)
+	}
+	if o := sexpBuckets(snap.Aggregate(lvl).Buckets); o != res {
+		det = false
+	}
 	immut = sexpGoroutines(gs) == before
 	return
 }
@@ -143,7 +150,11 @@ func observeFirst(x, y stack.Signature) (res string) {
 func (g *argGen) lessVariant(s stack.Signature) stack.Signature {
 	r := g.r
 	out := deepCopySig(s)
-	switch r.Intn(9) {
+	pick := r.Intn(9)
+	if len(out.Stack.Calls) == 0 && (pick == 2 || pick == 3 || pick == 4) {
+		pick = 5
+	}
+	switch pick {
 	case 8:
 		fc := fileUniverse[r.Intn(len(fileUniverse))]
 		k := 60 + r.Intn(70)
@@ -171,6 +182,8 @@ func (g *argGen) lessVariant(s stack.Signature) stack.Signature {
 	case 6:
 		if len(out.Stack.Calls) > 1 {
 			out.Stack.Calls = out.Stack.Calls[:len(out.Stack.Calls)-1]
+		} else if r.Intn(2) == 0 {
+			out.Stack.Calls = nil
 		}
 	case 7:
 		out.SleepMin, out.SleepMax = 7, 7
